@@ -10,7 +10,8 @@
 //! every event valid in its own fork; three timestamp assignments (increasing, all equal, reversed).
 //! C07: resolve(states at the fork tips) == reference result.
 //! C06: the result is the same for every permutation of the state sets and auth-chain sets, on repeated calls (fresh
-//!      hash seeds) and on another thread; a single state set, or identical ones, is returned unchanged.
+//!      hash seeds), on another thread, and with every auth_events list reversed or rotated (3 calls each); a single state
+//!      set, or identical ones, is returned unchanged.
 //! Topological sort: every DAG on up to 5 nodes with keys from a 2x2 domain: each node once, dependencies first, among
 //! ready nodes the greatest power level, then earliest timestamp, then smallest event id.
 use std::collections::{BTreeMap, BTreeSet, HashMap, HashSet};
@@ -454,6 +455,25 @@ fn run_rules(vname: &'static str, rules: AuthorizationRules, thorough: bool) -> 
                     (p.event_id.clone(), p)
                 })
                 .collect();
+            // the order of an event's auth_events is not specified: the same events with every auth_events list reversed
+            // (m.room.power_levels before m.room.create) and rotated
+            let pdus_other_orders: Vec<HashMap<OwnedEventId, Pdu>> = (0..2)
+                .map(|mode| {
+                    w.events
+                        .values()
+                        .map(|e| {
+                            let mut auth = e.auth.clone();
+                            if mode == 0 {
+                                auth.reverse();
+                            } else if !auth.is_empty() {
+                                auth.rotate_left(1);
+                            }
+                            let p = pdu_ts(&e.id, &e.sender, &e.ty, Some(&e.state_key), &e.content, &e.prev, &auth, "!r:s", e.ts);
+                            (p.event_id.clone(), p)
+                        })
+                        .collect()
+                })
+                .collect();
             n += 1;
             let want = resolve_ref(&rules, &w, &tips);
             // non-trivial: the state sets really conflict (some key has different values at the tips)
@@ -485,6 +505,17 @@ fn run_rules(vname: &'static str, rules: AuthorizationRules, thorough: bool) -> 
                         if real_resolve(&rules, &pdus, &w, &p).ok().as_ref() != Some(&got) {
                             fail(&mut f_det, describe(&json!("a permutation of the state sets / a repeated call gives a different state")));
                             break;
+                        }
+                    }
+                    for (mode, po) in pdus_other_orders.iter().enumerate() {
+                        for _ in 0..3 {
+                            match real_resolve(&rules, po, &w, &tips) {
+                                Ok(g) if g == got => {}
+                                other => {
+                                    fail(&mut f_det, describe(&json!(format!("with every auth_events list {} the result is {:?}", ["reversed", "rotated"][mode], other.map(|g| show(&g))))));
+                                    break;
+                                }
+                            }
                         }
                     }
                     let (r2, p2, w2, t2) = (rules.clone(), pdus.clone(), w.clone(), tips.clone());
